@@ -79,16 +79,30 @@ def ensure_import(filename, imports, recorder: ChangeRecorder):
 
     assert isinstance(tree, ast.Module)
 
+    body = tree.body
+
+    # the new import has to stay behind the module docstring
+    # (and behind the `from __future__` imports which can follow it)
+    docstring = None
+    if (
+        body
+        and isinstance(body[0], ast.Expr)
+        and isinstance(body[0].value, ast.Constant)
+        and isinstance(body[0].value.value, str)
+    ):
+        docstring = body[0]
+        body = body[1:]
+
     last_import = None
-    for node in tree.body:
+    for node in body:
         if not isinstance(node, (ast.ImportFrom, ast.Import)):
             break
         last_import = node
 
-    if last_import is None:
+    if last_import is None and docstring is None:
         position = start_of(tree.body[0].first_token)  # type: ignore
     else:
-        last_token = last_import.last_token  # type: ignore
+        last_token = (last_import or docstring).last_token  # type: ignore
         while True:
             next_token = token.next_token(last_token)
             if last_token.end[0] == next_token.end[0]:
